@@ -1,4 +1,5 @@
 import PvModel.Props.C01
+import PvModel.Props.C01Tri
 #print axioms Pv.C01_sound
 #print axioms Pv.C01_mgu
 #print axioms Pv.C01_fail_complete
@@ -9,3 +10,12 @@ import PvModel.Props.C01
 #print axioms Pv.C01_fuel_mono
 #print axioms Pv.C01_terminates
 #print axioms Pv.C01_prior_reachable
+#print axioms Pv.C01_tri_reachable
+#print axioms Pv.C01_tri_walk
+#print axioms Pv.C01_tri_walk_star
+#print axioms Pv.C01_tri_occurs
+#print axioms Pv.C01_tri_refines
+#print axioms Pv.C01_tri_terminates
+#print axioms Pv.C01_tri_fuel_independent
+#print axioms Pv.C01_tri_sound_mgu
+#print axioms Pv.C01_tri_fail_complete
